@@ -39,6 +39,10 @@ def cases(tier, seed):
             if tier == "quick" and scheme in ("qam", "pam") and (prm.get("normalize") is False and prm.get("order", 0) > 16):
                 continue
             yield f"C09|{pr}|{scheme},{cfgs}", {"pair": pr, "spec": spec, "tier": tier}
+    # long BCH codes (n = 31 .. 255, one field size each) over a BPSK link with the Berlekamp-Massey decoder: structured messages, ideal channel and
+    # flip patterns of weight <= t at structured positions
+    for mu, delta in ((5, 3), (5, 7), (6, 3), (6, 5), (7, 3), (8, 3), (8, 5)):
+        yield f"C09|long-bch|mu={mu},delta={delta}", {"longbch": (mu, delta), "tier": tier}
     # links whose codes share class and (n, k) built one after the other in ONE process (decoder state shared between instances)
     bpsk = ("bpsk", "complex=1", {"complex_output": True})
     yield "C09|mixing|hamming-left-right", {"pairs": ["hamming74+syndrome", "hamming-r+syndrome", "hamming74+bruteforce", "hamming-r+syndrome", "hamming74+syndrome"], "spec": bpsk, "tier": tier}
@@ -46,7 +50,7 @@ def cases(tier, seed):
 
 
 def component_of(p):
-    return p.get("pair", "mixing")
+    return "long-bch" if "longbch" in p else p.get("pair", "mixing")
 
 
 def build_pair(pr):
@@ -77,11 +81,56 @@ def build_pair(pr):
 
 
 def execute(p, res):
+    if "longbch" in p:
+        return long_bch_case(p, res)
     if "pairs" in p:
         for pr in p["pairs"]:
             run_pair({"pair": pr, "spec": p["spec"], "tier": p["tier"]}, res)
     else:
         run_pair(p, res)
+
+
+
+def long_bch_case(p, res):
+    import torch
+    from kaira.channels import LambdaChannel, PerfectChannel
+    from kaira.constraints import IdentityConstraint
+    from kaira.models.channel_code import ChannelCodeModel
+    from kaira.models.fec import decoders as D
+    from kaira.models.fec import encoders as E
+    from kaira.modulations import BPSKDemodulator, BPSKModulator
+    mu, delta = p["longbch"]
+    cfg = f"mu={mu},delta={delta},bpsk"
+    enc = E.BCHCodeEncoder(mu, delta)
+    dec = D.BerlekampMasseyDecoder(enc)
+    n, k = int(enc.code_length), int(enc.code_dimension)
+    t = (delta - 1) // 2
+    rows = [[0] * k, [1] * k, [i % 2 for i in range(k)], [1] + [0] * (k - 1), [0] * (k - 1) + [1], [1 if (i * i + i // 3) % 5 < 2 else 0 for i in range(k)]]
+    msgs = torch.tensor(rows, dtype=torch.float32)
+    mod, dem = BPSKModulator(), BPSKDemodulator()
+
+    def run(chname, channel, clause):
+        try:
+            out = ChannelCodeModel(enc, IdentityConstraint(), mod, channel, dem, dec)(msgs)
+        except Exception as e:  # noqa: BLE001
+            res.viol("long-bch", f"{cfg},{chname}", "raises", f"{type(e).__name__}: {str(e)[:200]}")
+            return
+        res.ev(msgs.shape[0], nontrivial=msgs.shape[0] if chname != "perfect" else 0, transitions=1)
+        if tuple(out.shape) != tuple(msgs.shape) or not torch.equal(out.to(torch.float32), msgs):
+            i = 0 if tuple(out.shape) != tuple(msgs.shape) else int((out.to(torch.float32) != msgs).any(dim=1).nonzero()[0])
+            nbad = int((out.to(torch.float32) != msgs).sum()) if tuple(out.shape) == tuple(msgs.shape) else -1
+            res.viol("long-bch", f"{cfg},{chname}", clause, f"BCH({n},{k}) t={t}: structured message {i} came back with {nbad} wrong bits in total over {msgs.shape[0]} messages", {"channel": chname})
+    run("perfect", PerfectChannel(), "ideal")
+    pos = sorted({0, 1, n // 3, n // 2, n - 2, n - 1, 50 % n, 51 % n, 101 % n})
+    pats = [(a,) for a in pos] + ([(a, b_) for a in pos[:5] for b_ in pos[4:] if a < b_] if t >= 2 else []) + ([(0, n // 2, n - 1), (1, 2, 3)] if t >= 3 else [])
+    for pat in pats:
+        def ch(s, *a, pat=pat, **k2):
+            s = s.clone()
+            for q_ in pat:
+                s[..., q_] = -s[..., q_]
+            return s
+        run("flip" + str(list(pat)), LambdaChannel(ch), "<=t-flips")
+    res.sample({"n": n, "k": k, "t": t, "patterns": len(pats)})
 
 
 def run_pair(p, res):
